@@ -152,6 +152,28 @@ class EditModel(EditableModule):
         raise KeyError(methodname)
 
 
+class EditDep(EditableModule):
+    """EditableModule holding a tensor AND tensors precomputed from it in __init__ (as xitorch's own CubicSpline1D holds the
+    samples and the spline coefficients derived from them): all are declared, the function uses all of them"""
+
+    def __init__(self, W0, c0, s, ticker):
+        self.W = W0
+        self.Wh = W0 * 0.5            # derived from W
+        self.c = c0 * 1.0             # derived from the caller's leaf
+        self.ch = self.c * 0.75       # derived from the derived c
+        self.s = s
+        self._ticker = ticker
+
+    def wcs(self):
+        # W/2 + Wh = W ;  c/4 + ch = c : value and total derivative are those of the plain function, the dependence is spread over four tensors
+        return 0.5 * self.W + self.Wh, 0.25 * self.c + self.ch, self.s
+
+    def getparamnames(self, methodname, prefix=""):
+        if methodname in MATH:
+            return [prefix + "W", prefix + "Wh", prefix + "c", prefix + "ch"]
+        raise KeyError(methodname)
+
+
 class EditHoldsNN(EditableModule):
     """EditableModule that holds a torch.nn.Module"""
 
@@ -223,11 +245,11 @@ class HoldW(EditableModule):
         raise KeyError(methodname)
 
 
-for _cls in (NNModel, NNTied, EditModel, EditHoldsNN, EditW):
+for _cls in (NNModel, NNTied, EditModel, EditDep, EditHoldsNN, EditW):
     for _n in MATH:
         setattr(_cls, _n, _mk_method(_n))
 
-KINDS = ["pure", "nn", "edit", "editnn", "mixed", "sib", "msib", "msib3"]
+KINDS = ["pure", "nn", "edit", "editdep", "editnn", "mixed", "sib", "msib", "msib3"]
 
 
 class Repr(object):
@@ -270,6 +292,12 @@ class Repr(object):
             self._mk = lambda name: getattr(self.obj, name)
         elif kind == "edit":
             self.obj = EditModel(W0, c0, s, t)
+            self.leaves = [W0, c0]
+            self.params = ()
+            self.objects = [self.obj]
+            self._mk = lambda name: getattr(self.obj, name)
+        elif kind == "editdep":
+            self.obj = EditDep(W0, c0, s, t)
             self.leaves = [W0, c0]
             self.params = ()
             self.objects = [self.obj]
